@@ -40,6 +40,10 @@ type HCase struct {
 	Trailer   []prog.KV     `json:"trailer"`
 	Msgs      []prog.Msg    `json:"msgs"`
 	Err       *prog.ErrSpec `json:"err"`
+	// Bad: the k-th response message (1-based, 0 = none) cannot be marshalled
+	// (invalid UTF-8 in a string field); a streaming handler returns the error
+	// its Send reported.
+	Bad int `json:"bad,omitempty"`
 }
 
 func kvGen(t *rapid.T, prefix, label string) []prog.KV {
@@ -135,6 +139,9 @@ func genH(transports []string) func(t *rapid.T) HCase {
 			nres = rapid.IntRange(0, 3).Draw(t, "nres")
 		}
 		c.Msgs = msgsGen(t, "res", nres)
+		if nres > 0 && rapid.IntRange(0, 7).Draw(t, "badmsg") == 0 {
+			c.Bad = rapid.IntRange(1, nres).Draw(t, "badAt")
+		}
 		if rapid.IntRange(0, 2).Draw(t, "fail") == 0 {
 			c.Err = errGen(t)
 		}
@@ -187,8 +194,15 @@ func checkH(tt *testing.T, c HCase) (pbt.Info, error) {
 	info.Label("proto:" + c.Protocol)
 	info.Label("kind:" + c.Kind)
 	info.Label("transport:" + c.Transport)
-	hp := &prog.HandlerProg{Header: c.Header, Trailer: c.Trailer, Drain: true, Final: c.Err, PropagateRecvErr: true}
+	hp := &prog.HandlerProg{Header: c.Header, Trailer: c.Trailer, Drain: true, Final: c.Err, PropagateRecvErr: true, PropagateSendErr: true}
 	streamRes := c.Kind == prog.Server || c.Kind == prog.Bidi
+	if c.Bad > 0 && c.Bad <= len(c.Msgs) {
+		c.Msgs = append([]prog.Msg(nil), c.Msgs...)
+		c.Msgs[c.Bad-1].Bad = true
+		info.Label("unmarshallable-response-message")
+	} else {
+		c.Bad = 0
+	}
 	if streamRes {
 		hp.Steps = append(hp.Steps, prog.HStep{Op: "recv", N: -1})
 		for i := range c.Msgs {
@@ -243,6 +257,21 @@ func checkH(tt *testing.T, c HCase) (pbt.Info, error) {
 	}
 	if c.Timeout != "" && !overflow && !calls[0].HasDeadline {
 		return info, fmt.Errorf("%s: conformant timeout %q gave the handler no deadline", where, c.Timeout)
+	}
+	if c.Bad > 0 && (streamRes || c.Err == nil) {
+		// the library could not put message c.Bad on the wire: the response must
+		// still be a well-formed failure carrying exactly the earlier messages
+		if dec.Status.Code == 0 {
+			return info, fmt.Errorf("%s: response message %d cannot be marshalled, yet the wire says success", where, c.Bad)
+		}
+		want := 0
+		if streamRes {
+			want = c.Bad - 1
+		}
+		if len(dec.Messages) != want {
+			return info, fmt.Errorf("%s: %d messages were sent before the one that cannot be marshalled, reference decoded %d", where, want, len(dec.Messages))
+		}
+		return info, nil
 	}
 	// the response carries exactly what the application supplied
 	wantMsgs := c.Msgs
